@@ -41,6 +41,19 @@ fn esc(s: &str) -> String {
     o
 }
 
+/// Canonical path of a definition. Items of workspace crates are printed by their
+/// definition path (not by the shortest re-export visible from the current crate), so
+/// `tensor_store::slab_router::SlabRouter` has one name in every crate's facts.
+fn dp<'tcx>(tcx: TyCtxt<'tcx>, did: rustc_hir::def_id::DefId) -> String {
+    let ws = std::env::var("NV_WORKSPACE").unwrap_or_default();
+    let cname = tcx.crate_name(did.krate).to_string();
+    if did.is_local() || ws.split(',').any(|c| c == cname) {
+        rustc_middle::ty::print::with_no_visible_paths!(tcx.def_path_str(did))
+    } else {
+        tcx.def_path_str(did)
+    }
+}
+
 struct Cx<'a, 'tcx> {
     tcx: TyCtxt<'tcx>,
     body: &'a Body<'tcx>,
@@ -73,7 +86,7 @@ impl<'a, 'tcx> Cx<'a, 'tcx> {
                                 }
                             };
                             if f.as_usize() < v.fields.len() {
-                                format!("{}.{}", self.tcx.def_path_str(adt.did()), v.fields[f].name)
+                                format!("{}.{}", dp(self.tcx, adt.did()), v.fields[f].name)
                             } else {
                                 format!("#{}", f.as_usize())
                             }
@@ -137,19 +150,19 @@ impl<'a, 'tcx> Cx<'a, 'tcx> {
                     AggregateKind::Adt(did, vi, _, _, _) => {
                         let adt = self.tcx.adt_def(*did);
                         if adt.is_enum() {
-                            format!("{}::{}", self.tcx.def_path_str(*did), adt.variant(*vi).name)
+                            format!("{}::{}", dp(self.tcx, *did), adt.variant(*vi).name)
                         } else {
-                            self.tcx.def_path_str(*did)
+                            dp(self.tcx, *did)
                         }
                     }
                     AggregateKind::Closure(did, _) => {
-                        format!("closure:{}", self.tcx.def_path_str(*did))
+                        format!("closure:{}", dp(self.tcx, *did))
                     }
                     AggregateKind::Coroutine(did, _) => {
-                        format!("coroutine:{}", self.tcx.def_path_str(*did))
+                        format!("coroutine:{}", dp(self.tcx, *did))
                     }
                     AggregateKind::CoroutineClosure(did, _) => {
-                        format!("closure:{}", self.tcx.def_path_str(*did))
+                        format!("closure:{}", dp(self.tcx, *did))
                     }
                     AggregateKind::Tuple => "tuple".to_string(),
                     AggregateKind::Array(_) => "array".to_string(),
@@ -187,10 +200,10 @@ impl<'a, 'tcx> Cx<'a, 'tcx> {
     fn callee(&self, func: &Operand<'tcx>) -> (String, String, String) {
         if let Some((cdid, args)) = func.const_fn_def() {
             let env = TypingEnv::post_analysis(self.tcx, self.def);
-            let generic = self.tcx.def_path_str(cdid);
+            let generic = dp(self.tcx, cdid);
             let res = Instance::try_resolve(self.tcx, env, cdid, args).ok().flatten();
             let resolved = match res {
-                Some(i) => self.tcx.def_path_str(i.def_id()),
+                Some(i) => dp(self.tcx, i.def_id()),
                 None => generic.clone(),
             };
             let ga = format!("{:?}", args);
@@ -218,7 +231,7 @@ fn dump_adts<'tcx>(tcx: TyCtxt<'tcx>, out: &mut String) {
         let _ = write!(
             out,
             "{{\"n\":{},\"k\":{},\"vis\":{},\"variants\":[",
-            esc(&tcx.def_path_str(did)),
+            esc(&dp(tcx, did)),
             esc(if adt.is_enum() { "enum" } else { "struct" }),
             esc(&format!("{:?}", tcx.visibility(did)))
         );
@@ -268,7 +281,7 @@ fn dump_impls<'tcx>(tcx: TyCtxt<'tcx>, out: &mut String) {
         let _ = write!(
             out,
             "{{\"trait\":{},\"self\":{},\"items\":{{",
-            esc(&tcx.def_path_str(tr.def_id)),
+            esc(&dp(tcx, tr.def_id)),
             esc(&format!("{}", tr.self_ty()))
         );
         let mut f2 = true;
@@ -278,7 +291,7 @@ fn dump_impls<'tcx>(tcx: TyCtxt<'tcx>, out: &mut String) {
                     out.push(',');
                 }
                 f2 = false;
-                let _ = write!(out, "{}:{}", esc(&tcx.def_path_str(titem)), esc(&tcx.def_path_str(it.def_id)));
+                let _ = write!(out, "{}:{}", esc(&dp(tcx, titem)), esc(&dp(tcx, it.def_id)));
             }
         }
         out.push_str("}}");
@@ -356,7 +369,7 @@ fn dump<'tcx>(tcx: TyCtxt<'tcx>, out_dir: &str, krate: &str) {
             let _ = write!(
                 out,
                 "{{\"n\":{},\"k\":{},\"co\":{},\"f\":{},\"l\":{},\"le\":{},\"vis\":{},\"exp\":{},\"argc\":{},\"locals\":[",
-                esc(&tcx.def_path_str(did)),
+                esc(&dp(tcx, did)),
                 esc(&format!("{:?}", kind)),
                 if tcx.is_coroutine(did) { if pre_transform { 1 } else { 2 } } else { 0 },
                 esc(&file),
